@@ -1,5 +1,6 @@
 import NoteSeqVerif.Common.Wire
 import NoteSeqVerif.Model.C04
+import NoteSeqVerif.Model.C04Full
 /-! line-protocol driver for C04 (compiled; no Mathlib).
 
 request : `book <nsections> section*`, section = `<nlines> line*`, line = `F field` | `M <ntoks> tok*`
@@ -131,19 +132,31 @@ def pBook : P (List (List Line)) := do
   P.lit "book"
   P.list (P.list pLine)
 
-def showNote (n : Note) : String := s!"{n.pitch} {n.vel} {showRat n.start} {showRat n.end_}"
+def showNote4 (n : C04.Note) : String := s!"{n.pitch} {n.vel} {showRat n.start} {showRat n.end_}"
 
-def errClass : Err → String
+def errClass : C04.Err → String
   | .abc c => c
   | .esc c => c
 
+/-- every container of `expand_section_groups(tune)` but the notes (those are `exp`) -/
+def showExpAll (t : Tune) : String :=
+  match expandAll rne53 t with
+  | .error e => "err " ++ e.name
+  | .ok s => " ".intercalate [
+      "ok", showRat s.totalTime, toString s.notes.length,
+      "tempos", showList (fun (e : NSV.Tempo) => s!"{showRat e.time} {showRat e.qpm}") s.tempos,
+      "ts", showList (fun (e : NSV.TimeSig) => s!"{showRat e.time} {e.num} {e.den}") s.timeSigs,
+      "ks", showList (fun (e : NSV.KeySig) => s!"{showRat e.time} {e.key} {e.mode}") s.keySigs,
+      "ta", showList (fun (e : NSV.TextAnn) => s!"{showRat e.time} {e.kind} {showStr e.text.toList}") s.texts,
+      "sa", showList (fun (e : NSV.SectionAnn) => s!"{showRat e.time} {e.sectionId}") s.sectionAnns]
+
 def showTune (t : Tune) : String :=
   let exp := match expand rne53 t with
-    | .ok ns => "ok " ++ showList showNote ns
+    | .ok ns => "ok " ++ showList showNote4 ns
     | .error e => "err " ++ errClass e
   " ".intercalate [
     toString t.refnum,
-    "notes", showList showNote t.notes,
+    "notes", showList showNote4 t.notes,
     "tempos", showList (fun (p : Rat × Rat) => s!"{showRat p.1} {showRat p.2}") t.tempos,
     "ts", showList (fun (p : Rat × Int × Int) => s!"{showRat p.1} {p.2.1} {p.2.2}") t.timeSigs,
     "ks", showList (fun (p : Rat × Nat × Nat) => s!"{showRat p.1} {p.2.1} {p.2.2}") t.keySigs,
@@ -154,7 +167,8 @@ def showTune (t : Tune) : String :=
     "title", showStr t.title,
     "comp", showList showStr t.composers,
     "artist", showStr t.artist,
-    "exp", exp]
+    "exp", exp,
+    "expall", showExpAll t]
 
 def step (line : String) : String :=
   match P.run pBook line with
